@@ -20,8 +20,8 @@ def sh(cmd, cwd=None, timeout=3600):
     return p.returncode, p.stdout
 
 
-def confirm(wt, sid):
-    out_dir = os.path.join(wt, "seeded_out")
+def confirm(wt, sid, sub=None):
+    out_dir = os.path.join(wt, "seeded_out", sub) if sub else os.path.join(wt, "seeded_out")
     patch = os.path.join(out_dir, "patch.diff")
     demo = os.path.join(out_dir, "demo.rs")
     meta = json.load(open(os.path.join(out_dir, "meta.json")))
@@ -41,7 +41,7 @@ def confirm(wt, sid):
     rc, o = sh("cargo test --offline --test demo 2>&1 | grep -E 'test result|error\\['", cwd=wt)
     ran.append("with patch: cargo test --offline --test demo -> %s" % o.strip())
     demo_fails = "FAILED" in o and "error[" not in o
-    sh("git apply -R %s" % patch, cwd=wt)
+    sh("git checkout -- src", cwd=wt)
     rc, o = sh("cargo test --offline --test demo 2>&1 | grep -E 'test result|error\\['", cwd=wt)
     ran.append("without patch: cargo test --offline --test demo -> %s" % o.strip())
     demo_passes = "test result: ok" in o and "FAILED" not in o
@@ -92,6 +92,6 @@ def detect(sid, props):
 
 if __name__ == "__main__":
     if sys.argv[1] == "confirm":
-        sys.exit(confirm(sys.argv[2], sys.argv[3]))
+        sys.exit(confirm(sys.argv[2], sys.argv[3], sys.argv[4] if len(sys.argv) > 4 else None))
     elif sys.argv[1] == "detect":
         sys.exit(detect(sys.argv[2], sys.argv[3:]))
